@@ -295,9 +295,19 @@ fn spawn_async_ao_list_in_task<'a, SE: extensions::ShellExtensions>(
     }
 
     let join_handle = tokio::spawn(async move {
-        cloned_ao_list
+        match cloned_ao_list
             .execute(&mut cloned_shell, &cloned_params)
             .await
+        {
+            Ok(result) => Ok(result),
+            // Like a subshell, a background job reports its own errors (when they happen,
+            // rather than when somebody waits for it) and ends with the resulting status.
+            Err(err) => {
+                let mut stderr = cloned_params.stderr(&cloned_shell);
+                let _ = cloned_shell.display_error(&mut stderr, &err);
+                Ok(err.into_result(&cloned_shell))
+            }
+        }
     });
 
     shell.jobs_mut().add_as_current(jobs::Job::new(
